@@ -74,6 +74,10 @@ def judge_events(events, marker, root):
         if kind == "compile":
             if "MARK" in ev[1]:
                 bad.append(("compile_of_file_text", ev[1][:160]))
+            elif ev[2] == "<string>" and not ev[1].lstrip().startswith(("def __create_fn__", "from builtins import", "lambda _cls", "def ", "class ")):
+                # a string compiled while indexing or answering: the package has no reason to (payloads without the
+                # marker, e.g. a condition of digits and operators only, end up here)
+                bad.append(("compile_of_dynamic_text", ev[1][:160]))
         elif kind == "exec":
             if any("MARK" in str(n) for n in ev[2]):
                 bad.append(("exec_of_file_text", str(ev[2])[:160]))
@@ -211,6 +215,9 @@ def sites(P):
                                                        "pp_defs": {"Y": "1"}, "debug_log": True})
     S["function_macro_noparams"] = w(f"#define X() {P}\n  v1 = X()\n")
     S["config_file_names"] = w("", config={"debug_log": P, "hover_language": P, "config": P, "source_dirs": ["."]})
+    # conditions that are nothing but numbers and operators (no identifier for an evaluator to stumble over)
+    S["numeric_condition"] = w(f"#define BASE 424242\n#if (BASE + 1) * 2 > 848485\n  integer :: a1\n#endif\n#if 7 * 6 == 42\n  integer :: a2\n#endif\n"
+                               f"#if 1 << 3 == 8\n#endif\n#define Q {P}\n")
     S["use_and_decl"] = w(f"  use {P}\n  type({P}) :: q\n  call {P}\n")
     return S
 
